@@ -195,7 +195,9 @@ func (srv *Server) handleConn(conn net.Conn) {
 	logger.Info("New connection")
 	var tlsState *tls.ConnectionState
 	if tcon, ok := conn.(*tls.Conn); ok {
-		if err := tcon.Handshake(); err != nil {
+		// Bound by the receive context: a peer that never completes (or never starts) its handshake
+		// must not keep Shutdown waiting forever for this connection.
+		if err := tcon.HandshakeContext(srv.recvCtx); err != nil {
 			_ = tcon.Close()
 			logger.Warn("TLS handshake failure. Closing client connection", "err", err)
 			return
